@@ -504,6 +504,27 @@ def shrink(case):
         yield mk(strip(d["t1"]), strip(d["t2"]), d["sep"], d["only_diff"], d["attr_list"], case.tags)
 
 
+def replay_known(entry) -> bool:
+    """K9 (separator made of mark characters), K10 (ints >= 2**53 up-cast to float)"""
+    from bigtree import Node, get_tree_diff
+    cl = entry.get("witness", {}).get("clause")
+    if cl == "separator_of_mark_chars":
+        sep = entry["witness"].get("sep", "-")
+        t1 = Node("r", sep=sep); Node("b", parent=t1)
+        t2 = Node("r", sep=sep); Node("c", parent=t2)
+        try:
+            res = get_tree_diff(t1, t2)
+        except Exception:
+            return True
+        names = sorted(str(x.node_name) for x in preorder(res)) if res is not None else []
+        return names != ["b (-)", "c (+)", "r"]
+    if cl == "int_ge_2_53":
+        t1 = Node("r"); Node("x", parent=t1, age=2 ** 53); Node("y", parent=t1)
+        t2 = Node("r"); Node("x", parent=t2, age=2 ** 53 + 1); Node("y", parent=t2)
+        return get_tree_diff(t1, t2, attr_list=["age"]) is None
+    return False
+
+
 NOT_READY = False
 LEVEL_TEXT = ("machine-checked (Lean 4), for all pairs of trees with the same root name over every name alphabet (names non-empty, "
               "free of the one-character separator, not themselves ending in a mark, siblings distinct), every attribute list and "
